@@ -166,6 +166,13 @@ func emitCut(id string, content []byte, cut int, signal string, ends string, kin
 		for tot := 0; tot < cut+5; tot += 9 {
 			sched = append(sched, schedStep{0, false}, schedStep{0, false}, schedStep{9, false})
 		}
+	case "chunkd", "chunke": // 13-byte pieces (lines straddle the reads), the last one delivered together with the failure / EOF
+		if signal == "chunkd" {
+			final = "fail:7"
+		}
+		for tot := 0; tot < cut+13; tot += 13 {
+			sched = append(sched, schedStep{13, true})
+		}
 	case "failz": // the same, ending with a reader failure
 		final = "fail:7"
 		for tot := 0; tot < cut+5; tot += 9 {
@@ -268,9 +275,9 @@ func opCut(r *rand.Rand, n int, tier string) {
 		}
 		off := r.Intn(step)
 		for cut := off; cut <= len(content); cut += step {
-			sig := []string{"eof", "fail", "faild", "zeros", "failz"}[r.Intn(5)]
+			sig := []string{"eof", "fail", "faild", "zeros", "failz", "chunkd", "chunke"}[r.Intn(7)]
 			if tier == "thorough" {
-				for _, sg := range []string{"eof", "fail", "faild", "zeros", "failz"} {
+				for _, sg := range []string{"eof", "fail", "faild", "zeros", "failz", "chunkd", "chunke"} {
 					emitCut(fmt.Sprintf("cut-%d-%d-%s", i, cut, sg), content, cut, sg, strings.Join(es, ","), kind)
 				}
 				continue
